@@ -11,8 +11,10 @@
   * `codeSearch_spec`, `matchLinkImage_stop`: matches are not empty and lie inside the string, so the
     character loop advances; `LoopInv`/`FInv`/`coreLoop_inv` carry an abstract invariant through
     the character loop (`len(s) + 1 - i` iterations suffice from position `i`).
-  * `DInv` adds the geometry and nesting of the emphasis matches, `CInv` (texts without a backslash)
-    their delimiter characters.
+  * `DInv` adds the geometry and nesting of the emphasis matches, `CInv` their delimiter characters
+    (emphasis delimiters are runs of `*` or `_` in the source), `GInv` that adjacent delimiters are
+    never runs of the same character, hence that emphasis content is not empty.  `loopInv_ginv`
+    instantiates the abstract loop invariant with `GInv`.
   * Results: `findCoreTokens_ok`, `tokenizeInner_ok`, `emphasis_wellformed`, `emphasis_nested`,
     `emphasis_chars`.
 -/
@@ -1029,62 +1031,17 @@ theorem DInv.step {s : Str} {lo hi : Nat} (hhi : hi ≤ s.length) {ds ms curr ds
       simp only [emphMatch]
       omega
 
-theorem processEmphasis_dinv (s : Str) (sb : Option Nat) (lo hi : Nat) (hhi : hi ≤ s.length)
-    (ds : List Delim) (ms : List CoreM) (h : DInv s lo hi ds ms) :
-    ∃ ds' ms', processEmphasis s sb ds ms = .ok (ds', ms') ∧ DInv s lo hi ds' ms' := by
-  obtain ⟨ds', ms', h1, h2⟩ := processEmphasis_inv s sb lo hi hhi (DInv s lo hi)
-    (fun _ _ h => h.chain) (fun _ _ _ _ _ _ h hr => h.step hhi hr) ds ms h
-  refine ⟨_, _, h2, ?_⟩
-  cases sb with
-  | none => exact h1.nil
-  | some b => exact h1.take b
-
-theorem findLinkImage_dinv (s : Str) (offset : Nat) (ds : List Delim) (ms : List CoreM) (fn : Footnotes.Table)
-    (lo hi : Nat) (hD : DInv s lo hi ds ms) (hhi : hi ≤ s.length) (ho : offset < s.length) :
-    ∃ i' ds' ms', findLinkImage s offset ds ms fn = .ok (i', ds', ms') ∧ offset ≤ i' ∧ i' < s.length ∧
-      DInv s lo hi ds' ms' := by
-  unfold findLinkImage
-  cases hl : lastBracket ds 0 none with
-  | none => exact ⟨_, _, _, rfl, Nat.le_refl _, ho, hD⟩
-  | some i =>
-    simp only
-    have hi' : i < ds.length := by
-      rcases lastBracket_spec ds 0 none i hl with h | h
-      · cases h
-      · omega
-    rw [List.getElem?_eq_getElem hi']
-    simp only
-    split
-    · exact ⟨_, _, _, rfl, Nat.le_refl _, ho, hD.eraseIdx i⟩
-    · cases hm : matchLinkImage s offset ds[i] fn with
-      | none => exact ⟨_, _, _, rfl, Nat.le_refl _, ho, hD.eraseIdx i⟩
-      | some m =>
-        simp only
-        obtain ⟨ds1, ms1, hpe, hD1⟩ := processEmphasis_dinv s (some i) lo hi hhi ds ms hD
-        rw [hpe]
-        simp only
-        obtain ⟨h1, h2, hk⟩ := matchLinkImage_stop s offset _ fn m ho hm
-        have hne : ¬ isEmphM m := by
-          unfold isEmphM
-          rcases hk with hk | hk <;> rw [hk] <;> simp
-        refine ⟨_, _, _, rfl, by omega, by omega, ?_⟩
-        split
-        · exact hD1.deactivate.cons_other m hne
-        · exact hD1.cons_other m hne
-
 /-! ### the character loop of `find_core_tokens` -/
 
 /-- What the character loop needs of an invariant.  `I hi ds ms`: the delimiters (all ending at or
     before `hi`) and the matches; `R a b ch`: `[a, b)` is a run of the delimiter character `ch`;
     `J i`: the character before `i` is harmless as first character of a `![` delimiter;
-    `E`: an escaping backslash has been seen. -/
+    `T i c ds`: no delimiter that ends exactly at `i` is an emphasis run of the character `c`. -/
 structure LoopInv (s : Str) (fn : Footnotes.Table) (I : Nat → List Delim → List CoreM → Prop)
-    (R : Nat → Nat → Char → Prop) (J : Nat → Prop) (E : Prop) : Prop where
+    (R : Nat → Nat → Char → Prop) (J : Nat → Prop) (T : Nat → Char → List Delim → Prop) : Prop where
   mono : ∀ {hi hi' : Nat} {ds : List Delim} {ms : List CoreM}, hi ≤ hi' → I hi ds ms → I hi' ds ms
   push_run : ∀ {hi hi' : Nat} {ds : List Delim} {ms : List CoreM} (a b : Nat) (ch : Char), I hi ds ms → R a b ch →
-    hi ≤ a → a < b → b ≤ hi' → b ≤ s.length → I hi' (ds ++ [mkDelim a b s]) ms
-  push_esc : ∀ {hi hi' : Nat} {ds : List Delim} {ms : List CoreM} (a b : Nat), I hi ds ms → E →
-    hi ≤ a → a < b → b ≤ hi' → b ≤ s.length → I hi' (ds ++ [mkDelim a b s]) ms
+    T a ch ds → hi ≤ a → a < b → b ≤ hi' → b ≤ s.length → I hi' (ds ++ [mkDelim a b s]) ms
   push_br : ∀ {hi hi' : Nat} {ds : List Delim} {ms : List CoreM} (i : Nat), I hi ds ms → s[i]? = some '[' →
     hi ≤ i → i + 1 ≤ hi' → i + 1 ≤ s.length → I hi' (ds ++ [mkDelim i (i + 1) s]) ms
   push_img : ∀ {hi hi' : Nat} {ds : List Delim} {ms : List CoreM} (i : Nat), I hi ds ms → J i → s[i]? = some '[' →
@@ -1093,43 +1050,29 @@ structure LoopInv (s : Str) (fn : Footnotes.Table) (I : Nat → List Delim → L
     s[offset]? = some ']' →
     ∃ i' ds' ms', findLinkImage s offset ds ms fn = .ok (i', ds', ms') ∧ offset ≤ i' ∧ i' < s.length ∧
       I hi ds' ms' ∧ J (i' + 1)
+  T_lt : ∀ {hi : Nat} {ds : List Delim} {ms : List CoreM} (i : Nat) (c : Char), I hi ds ms → hi < i → T i c ds
+  T_run : ∀ {hi : Nat} {ds : List Delim} {ms : List CoreM} (a b : Nat) (ch c : Char), I hi ds ms → R a b ch →
+    hi ≤ a → a < b → b ≤ s.length → c ≠ ch → T b c (ds ++ [mkDelim a b s])
+  T_br : ∀ {hi : Nat} {ds : List Delim} {ms : List CoreM} (i : Nat) (c : Char), I hi ds ms → s[i]? = some '[' →
+    hi ≤ i → T (i + 1) c (ds ++ [mkDelim i (i + 1) s])
+  T_img : ∀ {hi : Nat} {ds : List Delim} {ms : List CoreM} (i : Nat) (c : Char), I hi ds ms → J i →
+    hi ≤ i - 1 → T (i + 1) c (ds ++ [mkDelim (i - 1) (i + 1) s])
   R_new : ∀ (i : Nat) (c : Char), s[i]? = some c → (c = '*' ∨ c = '_') → R i (i + 1) c
   R_ext : ∀ (a i : Nat) (ch : Char), R a i ch → s[i]? = some ch → R a (i + 1) ch
   J_bang : ∀ i : Nat, s[i]? = some '!' → J (i + 1)
   J_bs : ∀ i : Nat, s[i]? = some '\\' → J (i + 1)
-  J_esc : E → ∀ i : Nat, J i
-  J_code : ∀ (p : Nat) (cm : CodeM), codeSearch s p = some cm → J cm.stop
-  E_bs : ∀ i : Nat, s[i]? = some '\\' → E
-
-theorem loopInv_dinv (s : Str) (fn : Footnotes.Table) :
-    LoopInv s fn (DInv s 0) (fun _ _ _ => True) (fun _ => True) True where
-  mono := fun hh h => h.mono hh
-  push_run := fun a b _ h _ h1 hab h2 hb => h.push a b h1 hab h2 hb
-  push_esc := fun a b h _ h1 hab h2 hb => h.push a b h1 hab h2 hb
-  push_br := fun i h _ h1 h2 hb => h.push i (i + 1) h1 (by omega) h2 hb
-  push_img := fun i h _ _ h1 h2 hb => h.push (i - 1) (i + 1) h1 (by omega) h2 hb
-  link := fun {hi ds ms} offset h hhi ho => by
-    obtain ⟨i', ds', ms', h1, h2, h3, h4⟩ := findLinkImage_dinv s offset ds ms fn 0 hi h hhi
-      (List.getElem?_eq_some_iff.1 ho).1
-    exact ⟨i', ds', ms', h1, h2, h3, h4, trivial⟩
-  R_new := fun _ _ _ _ => trivial
-  R_ext := fun _ _ _ _ _ => trivial
-  J_bang := fun _ _ => trivial
-  J_bs := fun _ _ => trivial
-  J_esc := fun _ _ => trivial
-  J_code := fun _ _ _ => trivial
-  E_bs := fun _ _ => trivial
 
 /-- invariant of the `while i < len(string)` loop at position `i` -/
 structure FInv (s : Str) (I : Nat → List Delim → List CoreM → Prop) (R : Nat → Nat → Char → Prop) (J : Nat → Prop)
-    (E : Prop) (i : Nat) (st : FState) : Prop where
+    (T : Nat → Char → List Delim → Prop) (i : Nat) (st : FState) : Prop where
   ile : i ≤ s.length
   run : ∀ ch, st.inRun = some ch → (ch = '*' ∨ ch = '_') ∧ st.start + (if st.escaped then 1 else 0) < i ∧
-    I st.start st.ds st.ms ∧ st.inImage = false ∧ R st.start (i - (if st.escaped then 1 else 0)) ch
+    I st.start st.ds st.ms ∧ st.inImage = false ∧ R st.start (i - (if st.escaped then 1 else 0)) ch ∧
+    T st.start ch st.ds
   norun : st.inRun = none → I (if st.inImage then i - 1 else i) st.ds st.ms
-  code : ∀ cm, st.code = some cm → cm.start < cm.stop ∧ cm.stop ≤ s.length ∧ J cm.stop
+  tight : st.inRun = none → ∀ c, T i c st.ds
+  code : ∀ cm, st.code = some cm → cm.start < cm.stop ∧ cm.stop ≤ s.length
   img : st.inImage = true → J i
-  esc : st.escaped = true → E
 
 /-- the delimiter run in progress is closed when the character differs or is escaped -/
 def st1Of (s : Str) (i : Nat) (c : Char) (st : FState) : FState :=
@@ -1154,17 +1097,16 @@ def tailExpr {α} (K : Nat → FState → Res α) (s : Str) (fn : Footnotes.Tabl
       | .ok (i', ds', ms') => K (i' + 1) { st2 with ds := ds', ms := ms', code := codeSearch s i' }
     else if st2.inImage then K (i + 1) { st2 with inImage := false }
     else K (i + 1) st2
-  else K (i + 1) { st2 with escaped := false }
+  else K (i + 1) { st2 with escaped := false, inImage := false }
 
 /-- state after the run bookkeeping for character `c` at position `i` -/
 structure Mid (s : Str) (I : Nat → List Delim → List CoreM → Prop) (R : Nat → Nat → Char → Prop) (J : Nat → Prop)
-    (E : Prop) (i : Nat) (c : Char) (st : FState) : Prop where
+    (T : Nat → Char → List Delim → Prop) (i : Nat) (c : Char) (st : FState) : Prop where
   run : ∀ ch, st.inRun = some ch → (ch = '*' ∨ ch = '_') ∧ c = ch ∧ st.escaped = false ∧ st.start ≤ i ∧
-    I st.start st.ds st.ms ∧ R st.start (i + 1) ch
+    I st.start st.ds st.ms ∧ R st.start (i + 1) ch ∧ T st.start ch st.ds
   norun : st.inRun = none → I (if st.inImage then i - 1 else i) st.ds st.ms
-  code : ∀ cm, st.code = some cm → cm.start < cm.stop ∧ cm.stop ≤ s.length ∧ J cm.stop
+  code : ∀ cm, st.code = some cm → cm.start < cm.stop ∧ cm.stop ≤ s.length
   img : st.inImage = true → J i
-  esc : st.escaped = true → E
 
 /-- the state after the pending delimiter run was closed with delimiter `d` -/
 def closeRunSt (st : FState) (d : Delim) : FState := { pushDelim st d with inRun := none }
@@ -1188,20 +1130,21 @@ theorem st2Of_same (i : Nat) (c : Char) (X : FState)
 
 section loop
 variable {s : Str} {fn : Footnotes.Table} {I : Nat → List Delim → List CoreM → Prop}
-  {R : Nat → Nat → Char → Prop} {J : Nat → Prop} {E : Prop} (L : LoopInv s fn I R J E)
+  {R : Nat → Nat → Char → Prop} {J : Nat → Prop} {T : Nat → Char → List Delim → Prop} (L : LoopInv s fn I R J T)
 include L
 
 theorem mid_norun (i : Nat) (c : Char) (X : FState) (hc : s[i]? = some c) (hX : X.inRun = none)
     (hC : I (if X.inImage then i - 1 else i) X.ds X.ms)
-    (hcode : ∀ cm, X.code = some cm → cm.start < cm.stop ∧ cm.stop ≤ s.length ∧ J cm.stop)
-    (himg : X.inImage = true → J i) (hesc : X.escaped = true → E) :
-    Mid s I R J E i c (st2Of i c X) := by
+    (hT : (c = '*' ∨ c = '_') → X.escaped = false → T i c X.ds)
+    (hcode : ∀ cm, X.code = some cm → cm.start < cm.stop ∧ cm.stop ≤ s.length)
+    (himg : X.inImage = true → J i) :
+    Mid s I R J T i c (st2Of i c X) := by
   by_cases hn : (c = '*' ∨ c = '_') ∧ X.escaped = false
   · rw [st2Of_new i c X hX hn.1 hn.2]
-    refine ⟨fun ch hch => ?_, fun h => (by simp at h), hcode, himg, hesc⟩
+    refine ⟨fun ch hch => ?_, fun h => (by simp at h), hcode, himg⟩
     simp only [Option.some.injEq] at hch
     subst hch
-    refine ⟨hn.1, rfl, hn.2, Nat.le_refl _, ?_, L.R_new i c hc hn.1⟩
+    refine ⟨hn.1, rfl, hn.2, Nat.le_refl _, ?_, L.R_new i c hc hn.1, hT hn.1 hn.2⟩
     dsimp only
     exact L.mono (by split <;> omega) hC
   · rw [st2Of_same i c X (by
@@ -1210,18 +1153,18 @@ theorem mid_norun (i : Nat) (c : Char) (X : FState) (hc : s[i]? = some c) (hX : 
         | true => rfl
         | false => exact absurd ⟨h1, he⟩ hn
       · right; left; exact h1)]
-    exact ⟨fun ch hch => (by rw [hX] at hch; cases hch), fun _ => hC, hcode, himg, hesc⟩
+    exact ⟨fun ch hch => (by rw [hX] at hch; cases hch), fun _ => hC, hcode, himg⟩
 
-theorem mid_of_inv (i : Nat) (c : Char) (st : FState) (h : FInv s I R J E i st) (hc : s[i]? = some c) :
-    Mid s I R J E i c (st2Of i c (st1Of s i c st)) := by
+theorem mid_of_inv (i : Nat) (c : Char) (st : FState) (h : FInv s I R J T i st) (hc : s[i]? = some c) :
+    Mid s I R J T i c (st2Of i c (st1Of s i c st)) := by
   have hi : i < s.length := (List.getElem?_eq_some_iff.1 hc).1
   cases hr : st.inRun with
   | none =>
     have h1 : st1Of s i c st = st := by simp [st1Of, hr]
     rw [h1]
-    exact mid_norun L i c st hc hr (h.norun hr) h.code h.img h.esc
+    exact mid_norun L i c st hc hr (h.norun hr) (fun _ _ => h.tight hr c) h.code h.img
   | some ch =>
-    obtain ⟨hch, hlt, hC, him, hR⟩ := h.run ch hr
+    obtain ⟨hch, hlt, hC, him, hR, hT⟩ := h.run ch hr
     by_cases hcond : c ≠ ch ∨ st.escaped = true
     · have hb : ∃ b, (if !st.escaped then i else i - 1) = b ∧ st.start < b ∧ b ≤ i ∧
           b = i - (if st.escaped then 1 else 0) := by
@@ -1235,11 +1178,21 @@ theorem mid_of_inv (i : Nat) (c : Char) (st : FState) (h : FInv s I R J E i st) 
           · simp [hr, hc]
           · simp [hr, hc]
       rw [h1]
-      refine mid_norun L i c _ hc rfl ?_ h.code ?_ h.esc
+      rw [← hb3] at hR
+      refine mid_norun L i c _ hc rfl ?_ ?_ h.code ?_
       · show I (if st.inImage then i - 1 else i) (st.ds ++ [mkDelim st.start b s]) st.ms
         simp only [him]
-        rw [← hb3] at hR
-        exact L.push_run _ _ ch hC hR (Nat.le_refl _) hb1 hb2 (by omega)
+        exact L.push_run _ _ ch hC hR hT (Nat.le_refl _) hb1 hb2 (by omega)
+      · intro _ he
+        have he' : st.escaped = false := he
+        show T i c (st.ds ++ [mkDelim st.start b s])
+        have hbi : b = i := by rw [hb3, he']; simp
+        have hne : c ≠ ch := by
+          rcases hcond with h' | h'
+          · exact h'
+          · rw [he'] at h'; cases h'
+        rw [← hbi]
+        exact L.T_run _ _ ch c hC hR (Nat.le_refl _) hb1 (by omega) hne
       · intro h'
         have : st.inImage = true := h'
         rw [him] at this; cases this
@@ -1254,27 +1207,27 @@ theorem mid_of_inv (i : Nat) (c : Char) (st : FState) (h : FInv s I R J E i st) 
         simp [hr, hc1, he]
       have h2 : st2Of i c st = st := st2Of_same i c st (Or.inl (by rw [hr]; simp))
       rw [h1, h2]
-      refine ⟨fun ch' hch' => ?_, fun hn => (by rw [hr] at hn; cases hn), h.code, h.img, h.esc⟩
+      refine ⟨fun ch' hch' => ?_, fun hn => (by rw [hr] at hn; cases hn), h.code, h.img⟩
       rw [hr] at hch'; cases hch'
       rw [he] at hlt hR
       simp only [Bool.false_eq_true, if_false, Nat.sub_zero, Nat.add_zero] at hlt hR
-      exact ⟨hch, hc1, he, by omega, hC, L.R_ext _ _ _ hR (by rw [← hc1]; exact hc)⟩
+      exact ⟨hch, hc1, he, by omega, hC, L.R_ext _ _ _ hR (by rw [← hc1]; exact hc), hT⟩
 
 omit L in
 theorem finv_norun (i : Nat) (X : FState) (hi : i ≤ s.length) (hX : X.inRun = none)
-    (hC : I (if X.inImage then i - 1 else i) X.ds X.ms)
-    (hcode : ∀ cm, X.code = some cm → cm.start < cm.stop ∧ cm.stop ≤ s.length ∧ J cm.stop)
-    (himg : X.inImage = true → J i) (hesc : X.escaped = true → E) : FInv s I R J E i X :=
-  ⟨hi, fun ch h => (by rw [hX] at h; cases h), fun _ => hC, hcode, himg, hesc⟩
+    (hC : I (if X.inImage then i - 1 else i) X.ds X.ms) (hT : ∀ c, T i c X.ds)
+    (hcode : ∀ cm, X.code = some cm → cm.start < cm.stop ∧ cm.stop ≤ s.length)
+    (himg : X.inImage = true → J i) : FInv s I R J T i X :=
+  ⟨hi, fun ch h => (by rw [hX] at h; cases h), fun _ => hC, fun _ => hT, hcode, himg⟩
 
 theorem tail_spec {α} (K : Nat → FState → Res α) (i : Nat) (c : Char) (st2 : FState)
-    (h : Mid s I R J E i c st2) (hc : s[i]? = some c) :
-    ∃ i' st3, tailExpr K s fn i c st2 = K (i' + 1) st3 ∧ i ≤ i' ∧ i' < s.length ∧ FInv s I R J E (i' + 1) st3 := by
+    (h : Mid s I R J T i c st2) (hc : s[i]? = some c) :
+    ∃ i' st3, tailExpr K s fn i c st2 = K (i' + 1) st3 ∧ i ≤ i' ∧ i' < s.length ∧ FInv s I R J T (i' + 1) st3 := by
   have hi : i < s.length := (List.getElem?_eq_some_iff.1 hc).1
   have absurd_bool : ∀ {p : Prop}, false = true → p := fun h => by cases h
   cases hr : st2.inRun with
   | some ch =>
-    obtain ⟨hch, hcc, he, hs, hC, hR⟩ := h.run ch hr
+    obtain ⟨hch, hcc, he, hs, hC, hR, hT⟩ := h.run ch hr
     have h1 : c ≠ '[' := by rcases hch with h | h <;> rw [hcc, h] <;> decide
     have h2 : c ≠ '!' := by rcases hch with h | h <;> rw [hcc, h] <;> decide
     have h3 : c ≠ ']' := by rcases hch with h | h <;> rw [hcc, h] <;> decide
@@ -1282,29 +1235,31 @@ theorem tail_spec {α} (K : Nat → FState → Res α) (i : Nat) (c : Char) (st2
     simp only [he, Bool.not_false, if_true, h1, h2, h3, if_false]
     cases him : st2.inImage with
     | true =>
-      refine ⟨i, _, rfl, Nat.le_refl _, hi, by omega, fun ch' hch' => ?_, fun hn => ?_, h.code, absurd_bool,
-        fun h' => absurd_bool (he ▸ h')⟩
+      refine ⟨i, _, rfl, Nat.le_refl _, hi, by omega, fun ch' hch' => ?_, fun hn => ?_, fun hn => ?_, h.code, absurd_bool⟩
       · dsimp only at hch' ⊢
         rw [hr] at hch'; cases hch'
-        exact ⟨hch, by simp; omega, hC, rfl, by simpa using hR⟩
+        exact ⟨hch, by simp; omega, hC, rfl, by simpa using hR, hT⟩
+      · dsimp only at hn; rw [hr] at hn; cases hn
       · dsimp only at hn; rw [hr] at hn; cases hn
     | false =>
-      refine ⟨i, _, rfl, Nat.le_refl _, hi, by omega, fun ch' hch' => ?_, fun hn => ?_, h.code,
-        fun h' => absurd_bool (him ▸ h'), fun h' => absurd_bool (he ▸ h')⟩
+      refine ⟨i, _, rfl, Nat.le_refl _, hi, by omega, fun ch' hch' => ?_, fun hn => ?_, fun hn => ?_, h.code,
+        fun h' => absurd_bool (him ▸ h')⟩
       · rw [hr] at hch'; cases hch'
         rw [he]
-        exact ⟨hch, by simp; omega, hC, him, by simpa using hR⟩
+        exact ⟨hch, by simp; omega, hC, him, by simpa using hR, hT⟩
+      · rw [hr] at hn; cases hn
       · rw [hr] at hn; cases hn
   | none =>
     have hC := h.norun hr
+    have hXle : (if st2.inImage then i - 1 else i) < i + 1 := by split <;> omega
+    have hTlt : ∀ c', T (i + 1) c' st2.ds := fun c' => L.T_lt (i + 1) c' hC hXle
     unfold tailExpr
     cases he : st2.escaped with
     | true =>
       simp only [Bool.not_true, Bool.false_eq_true, if_false]
       exact ⟨i, _, rfl, Nat.le_refl _, hi, finv_norun _ _ (by omega) hr
-        (L.mono (by dsimp only; split <;> omega) hC) h.code (fun _ => L.J_esc (h.esc he) _) absurd_bool⟩
+        (L.mono (by dsimp only; split <;> simp <;> omega) hC) hTlt h.code absurd_bool⟩
     | false =>
-      have hesc' : false = true → E := absurd_bool
       simp only [Bool.not_false, if_true]
       by_cases h1 : c = '['
       · simp only [h1, if_true]
@@ -1313,24 +1268,24 @@ theorem tail_spec {α} (K : Nat → FState → Res α) (i : Nat) (c : Char) (st2
         | false =>
           simp only [Bool.not_false, if_true]
           rw [him] at hC
-          refine ⟨i, _, rfl, Nat.le_refl _, hi, finv_norun _ _ (by omega) hr ?_ h.code
-            (fun h' => absurd_bool (him ▸ h')) (fun h' => absurd_bool (he ▸ h'))⟩
+          refine ⟨i, _, rfl, Nat.le_refl _, hi, finv_norun _ _ (by omega) hr ?_
+            (fun c' => L.T_br i c' hC hc (Nat.le_refl _)) h.code (fun h' => absurd_bool (him ▸ h'))⟩
           show I (if st2.inImage then i + 1 - 1 else i + 1) (st2.ds ++ [mkDelim i (i + 1) s]) st2.ms
           rw [him]
           exact L.push_br i hC hc (Nat.le_refl _) (Nat.le_refl _) (by omega)
         | true =>
           simp only [Bool.not_true, Bool.false_eq_true, if_false]
           rw [him] at hC
-          refine ⟨i, _, rfl, Nat.le_refl _, hi, finv_norun _ _ (by omega) hr ?_ h.code
-            absurd_bool (fun h' => absurd_bool (he ▸ h'))⟩
+          refine ⟨i, _, rfl, Nat.le_refl _, hi, finv_norun _ _ (by omega) hr ?_
+            (fun c' => L.T_img i c' hC (h.img him) (Nat.le_refl _)) h.code absurd_bool⟩
           show I (i + 1) (st2.ds ++ [mkDelim (i - 1) (i + 1) s]) st2.ms
           exact L.push_img i hC (h.img him) hc (Nat.le_refl _) (Nat.le_refl _) (by omega)
       · simp only [h1, if_false]
         by_cases h2 : c = '!'
         · simp only [h2, if_true]
           rw [h2] at hc
-          refine ⟨i, _, rfl, Nat.le_refl _, hi, finv_norun _ _ (by omega) hr ?_ h.code
-            (fun _ => L.J_bang i hc) (fun h' => absurd_bool (he ▸ h'))⟩
+          refine ⟨i, _, rfl, Nat.le_refl _, hi, finv_norun _ _ (by omega) hr ?_ hTlt h.code
+            (fun _ => L.J_bang i hc)⟩
           exact L.mono (by dsimp only; split <;> simp <;> omega) hC
         · simp only [h2, if_false]
           by_cases h3 : c = ']'
@@ -1339,22 +1294,21 @@ theorem tail_spec {α} (K : Nat → FState → Res α) (i : Nat) (c : Char) (st2
             obtain ⟨i', ds', ms', hf, hle, hlt, hC', hJ⟩ := L.link i hC (by split <;> omega) hc
             rw [hf]
             refine ⟨i', _, rfl, hle, hlt, finv_norun _ _ (by omega) hr ?_
-              (fun cm hcm => ?_) (fun _ => hJ) (fun h' => absurd_bool (he ▸ h'))⟩
-            · exact L.mono (by dsimp only; split <;> omega) hC'
-            · have := codeSearch_spec s i' cm hcm
-              exact ⟨this.1, this.2, L.J_code i' cm hcm⟩
+              (fun c' => L.T_lt (i' + 1) c' hC' (by omega))
+              (fun cm hcm => codeSearch_spec s i' cm hcm) (fun _ => hJ)⟩
+            exact L.mono (by dsimp only; split <;> omega) hC'
           · simp only [h3, if_false]
             cases him : st2.inImage with
             | true =>
               simp only [if_true]
               rw [him] at hC
-              refine ⟨i, _, rfl, Nat.le_refl _, hi, finv_norun _ _ (by omega) hr ?_ h.code
-                absurd_bool (fun h' => absurd_bool (he ▸ h'))⟩
+              refine ⟨i, _, rfl, Nat.le_refl _, hi, finv_norun _ _ (by omega) hr ?_ hTlt h.code
+                absurd_bool⟩
               exact L.mono (by simp; omega) hC
             | false =>
               simp only [Bool.false_eq_true, if_false]
-              refine ⟨i, _, rfl, Nat.le_refl _, hi, finv_norun _ _ (by omega) hr ?_ h.code
-                (fun h' => absurd_bool (him ▸ h')) (fun h' => absurd_bool (he ▸ h'))⟩
+              refine ⟨i, _, rfl, Nat.le_refl _, hi, finv_norun _ _ (by omega) hr ?_ hTlt h.code
+                (fun h' => absurd_bool (him ▸ h'))⟩
               rw [him] at hC ⊢
               exact L.mono (by simp) hC
 
@@ -1365,7 +1319,7 @@ def codeExpr {α} (K : Nat → FState → Res α) (s : Str) (i : Nat) (st : FSta
   let st1 := if st.inRun.isSome then
       { pushDelim st (mkDelim st.start (if !st.escaped then i else i - 1) s) with inRun := none, escaped := false }
     else st
-  K cm.stop { st1 with codes := cm :: st1.codes, code := codeSearch s cm.stop }
+  K cm.stop { st1 with codes := cm :: st1.codes, code := codeSearch s cm.stop, inImage := false }
 
 /-- the loop body when no code span starts at `i` -/
 def restExpr {α} (K : Nat → FState → Res α) (s : Str) (fn : Footnotes.Table) (i : Nat) (c : Char) (st : FState) : Res α :=
@@ -1386,58 +1340,62 @@ theorem coreLoop_succ (s : Str) (fn : Footnotes.Table) (fuel i : Nat) (st : FSta
 
 section loop2
 variable {s : Str} {fn : Footnotes.Table} {I : Nat → List Delim → List CoreM → Prop}
-  {R : Nat → Nat → Char → Prop} {J : Nat → Prop} {E : Prop} (L : LoopInv s fn I R J E)
+  {R : Nat → Nat → Char → Prop} {J : Nat → Prop} {T : Nat → Char → List Delim → Prop} (L : LoopInv s fn I R J T)
 include L
 
 theorem code_spec {α} (K : Nat → FState → Res α) (i : Nat) (st : FState) (cm : CodeM)
-    (h : FInv s I R J E i st) (hcm : st.code = some cm) (hi : i = cm.start) :
-    ∃ st3, codeExpr K s i st cm = K cm.stop st3 ∧ i < cm.stop ∧ FInv s I R J E cm.stop st3 := by
-  obtain ⟨hcm1, hcm2, hcm3⟩ := h.code cm hcm
-  have hcode : ∀ cm', codeSearch s cm.stop = some cm' → cm'.start < cm'.stop ∧ cm'.stop ≤ s.length ∧ J cm'.stop :=
-    fun cm' h' => ⟨(codeSearch_spec s cm.stop cm' h').1, (codeSearch_spec s cm.stop cm' h').2, L.J_code _ _ h'⟩
+    (h : FInv s I R J T i st) (hcm : st.code = some cm) (hi : i = cm.start) :
+    ∃ st3, codeExpr K s i st cm = K cm.stop st3 ∧ i < cm.stop ∧ FInv s I R J T cm.stop st3 := by
+  obtain ⟨hcm1, hcm2⟩ := h.code cm hcm
+  have hcode : ∀ cm', codeSearch s cm.stop = some cm' → cm'.start < cm'.stop ∧ cm'.stop ≤ s.length :=
+    fun cm' h' => codeSearch_spec s cm.stop cm' h'
   unfold codeExpr
   cases hr : st.inRun with
   | none =>
     simp only [Option.isSome_none, Bool.false_eq_true, if_false]
-    refine ⟨_, rfl, by omega, finv_norun _ _ hcm2 hr ?_ hcode (fun _ => hcm3) h.esc⟩
-    exact L.mono (by dsimp only; split <;> omega) (h.norun hr)
+    have hC := h.norun hr
+    have hX : (if st.inImage then i - 1 else i) ≤ i := by split <;> omega
+    refine ⟨_, rfl, by omega, finv_norun _ _ hcm2 hr ?_ (fun c' => L.T_lt cm.stop c' hC (by omega)) hcode
+      (fun h' => by cases h')⟩
+    exact L.mono (by dsimp only; simp; omega) hC
   | some ch =>
-    obtain ⟨_, hlt, hC, him, hR⟩ := h.run ch hr
+    obtain ⟨_, hlt, hC, him, hR, hT⟩ := h.run ch hr
     simp only [Option.isSome_some, if_true]
-    refine ⟨_, rfl, by omega, finv_norun _ _ hcm2 rfl ?_ hcode ?_ (fun h' => by cases h')⟩
-    · show I (if st.inImage then cm.stop - 1 else cm.stop) (st.ds ++ [_]) st.ms
-      rw [him]
-      have hb : (if !st.escaped then i else i - 1) = i - (if st.escaped then 1 else 0) := by
-        cases st.escaped <;> simp
-      rw [hb]
-      refine L.push_run _ _ ch hC hR (Nat.le_refl _) ?_ ?_ ?_ <;>
-        cases he : st.escaped <;> simp [he] at hlt ⊢ <;> omega
-    · intro h'
-      have : st.inImage = true := h'
-      rw [him] at this; cases this
+    have hb : (if !st.escaped then i else i - 1) = i - (if st.escaped then 1 else 0) := by
+      cases st.escaped <;> simp
+    have hb1 : st.start < i - (if st.escaped then 1 else 0) ∧ i - (if st.escaped then 1 else 0) ≤ i := by
+      cases he : st.escaped <;> simp [he] at hlt ⊢ <;> omega
+    have hI : I i (st.ds ++ [mkDelim st.start (i - (if st.escaped then 1 else 0)) s]) st.ms :=
+      L.push_run _ _ ch hC hR hT (Nat.le_refl _) hb1.1 hb1.2 (by omega)
+    rw [hb]
+    refine ⟨_, rfl, by omega, finv_norun _ _ hcm2 rfl ?_ (fun c' => L.T_lt cm.stop c' hI (by omega)) hcode
+      (fun h' => by cases h')⟩
+    show I cm.stop (st.ds ++ [_]) st.ms
+    exact L.mono (by omega) hI
 
 theorem rest_spec {α} (K : Nat → FState → Res α) (i : Nat) (c : Char) (st : FState)
-    (h : FInv s I R J E i st) (hc : s[i]? = some c) :
-    ∃ i' st3, restExpr K s fn i c st = K (i' + 1) st3 ∧ i ≤ i' ∧ i' < s.length ∧ FInv s I R J E (i' + 1) st3 := by
+    (h : FInv s I R J T i st) (hc : s[i]? = some c) :
+    ∃ i' st3, restExpr K s fn i c st = K (i' + 1) st3 ∧ i ≤ i' ∧ i' < s.length ∧ FInv s I R J T (i' + 1) st3 := by
   have hi : i < s.length := (List.getElem?_eq_some_iff.1 hc).1
   unfold restExpr
   split
   · rename_i hbs
     simp only [Bool.and_eq_true, decide_eq_true_eq, Bool.not_eq_true'] at hbs
     rw [hbs.1] at hc
-    refine ⟨i, _, rfl, Nat.le_refl _, hi, by omega, fun ch hch => ?_, fun hn => ?_, h.code,
-      fun _ => L.J_bs i hc, fun _ => L.E_bs i hc⟩
-    · obtain ⟨h1, h2, h3, h4, h5⟩ := h.run ch hch
+    refine ⟨i, _, rfl, Nat.le_refl _, hi, by omega, fun ch hch => ?_, fun hn => ?_, fun hn c' => ?_, h.code,
+      fun _ => L.J_bs i hc⟩
+    · obtain ⟨h1, h2, h3, h4, h5, h6⟩ := h.run ch hch
       rw [hbs.2] at h2 h5
-      exact ⟨h1, by simp at h2 ⊢; omega, h3, h4, by simpa using h5⟩
+      exact ⟨h1, by simp at h2 ⊢; omega, h3, h4, by simpa using h5, h6⟩
     · exact L.mono (by dsimp only; split <;> omega) (h.norun hn)
+    · exact L.T_lt (i + 1) c' (h.norun hn) (by split <;> omega)
   · exact tail_spec L K i c _ (mid_of_inv L i c st h hc) hc
 
 /-- The character loop never fails, `len(s) + 1 - i` iterations suffice from position `i`, it ends at
     `i = len(s)`, and the invariant holds at the end. -/
 theorem coreLoop_inv : ∀ (fuel i : Nat) (st : FState),
-    FInv s I R J E i st → s.length + 1 ≤ fuel + i →
-    ∃ st', coreLoop s fn fuel i st = .ok (s.length, st') ∧ FInv s I R J E s.length st'
+    FInv s I R J T i st → s.length + 1 ≤ fuel + i →
+    ∃ st', coreLoop s fn fuel i st = .ok (s.length, st') ∧ FInv s I R J T s.length st'
   | 0, i, st, h, hf => by have := h.ile; omega
   | fuel + 1, i, st, h, hf => by
     rw [coreLoop_succ]
@@ -1452,7 +1410,7 @@ theorem coreLoop_inv : ∀ (fuel i : Nat) (st : FState),
     | some c =>
       have hi : i < s.length := (List.getElem?_eq_some_iff.1 hc).1
       have hrest : ∃ st', restExpr (coreLoop s fn fuel) s fn i c st = .ok (s.length, st') ∧
-          FInv s I R J E s.length st' := by
+          FInv s I R J T s.length st' := by
         obtain ⟨i', st3, he, hle, hlt, hinv⟩ := rest_spec L (coreLoop s fn fuel) i c st h hc
         rw [he]
         exact coreLoop_inv fuel (i' + 1) st3 hinv (by omega)
@@ -1471,14 +1429,13 @@ theorem coreLoop_inv : ∀ (fuel i : Nat) (st : FState),
 
 /-- `find_core_tokens` runs the character loop to the end without failing, and the invariant holds
     for the delimiters and matches handed to the final `process_emphasis`. -/
-theorem findCoreTokens_loop (h0 : I 0 [] []) :
+theorem findCoreTokens_loop (h0 : I 0 [] []) (hT0 : ∀ c, T 0 c []) :
     ∃ st ds, coreLoop s fn (s.length + 2) 0 { code := codeSearch s 0 } = .ok (s.length, st) ∧
-      ds = (if st.inRun.isSome then pushDelim st (mkDelim st.start s.length s) else st).ds ∧
+      ds = (if st.inRun.isSome then
+              pushDelim st (mkDelim st.start (if !st.escaped then s.length else s.length - 1) s) else st).ds ∧
       I s.length ds st.ms := by
-  have hinit : FInv s I R J E 0 { code := codeSearch s 0 } :=
-    finv_norun 0 _ (Nat.zero_le _) rfl h0
-      (fun cm h => ⟨(codeSearch_spec s 0 cm h).1, (codeSearch_spec s 0 cm h).2, L.J_code 0 cm h⟩)
-      (fun h => by cases h) (fun h => by cases h)
+  have hinit : FInv s I R J T 0 { code := codeSearch s 0 } :=
+    finv_norun 0 _ (Nat.zero_le _) rfl h0 hT0 (fun cm h => codeSearch_spec s 0 cm h) (fun h => by cases h)
   obtain ⟨st, h1, h2⟩ := coreLoop_inv L (s.length + 2) 0 _ hinit (by omega)
   refine ⟨st, _, h1, rfl, ?_⟩
   cases hr : st.inRun with
@@ -1486,146 +1443,17 @@ theorem findCoreTokens_loop (h0 : I 0 [] []) :
     simp only [Option.isSome_none, Bool.false_eq_true, if_false]
     exact L.mono (by split <;> omega) (h2.norun hr)
   | some ch =>
-    obtain ⟨_, hlt, hC, _, hR⟩ := h2.run ch hr
+    obtain ⟨_, hlt, hC, _, hR, hT⟩ := h2.run ch hr
     simp only [Option.isSome_some, if_true, pushDelim]
-    cases he : st.escaped with
-    | false =>
-      rw [he] at hR
-      simp only [Bool.false_eq_true, if_false, Nat.sub_zero] at hR
-      exact L.push_run _ _ ch hC hR (Nat.le_refl _) (by omega) (Nat.le_refl _) (Nat.le_refl _)
-    | true =>
-      exact L.push_esc _ _ hC (h2.esc he) (Nat.le_refl _) (by omega) (Nat.le_refl _) (Nat.le_refl _)
+    have hb : (if !st.escaped then s.length else s.length - 1) = s.length - (if st.escaped then 1 else 0) := by
+      cases st.escaped <;> simp
+    rw [hb]
+    refine L.push_run _ _ ch hC hR hT (Nat.le_refl _) ?_ ?_ ?_ <;>
+      cases he : st.escaped <;> simp [he] at hlt ⊢ <;> omega
 
 end loop2
 
-/-! ### results -/
-
-/-- `find_core_tokens` returns; its matches (here newest first) satisfy the invariant -/
-theorem findCoreTokens_dinv (s : Str) (fn : Footnotes.Table) :
-    ∃ ms codes, findCoreTokens s fn = .ok (ms.reverse, codes) ∧ DInv s 0 s.length [] ms := by
-  have h0 : DInv s 0 0 [] [] := ⟨Nat.le_refl _, fun m hm => (by cases hm), List.Pairwise.nil⟩
-  obtain ⟨st, ds, h1, hds, h2⟩ := findCoreTokens_loop (loopInv_dinv s fn) h0
-  have hms : (if st.inRun.isSome then pushDelim st (mkDelim st.start s.length s) else st).ms = st.ms := by
-    split <;> rfl
-  obtain ⟨ds', ms', hpe, hD⟩ := processEmphasis_dinv s none 0 s.length (Nat.le_refl _) ds st.ms h2
-  refine ⟨ms', (if st.inRun.isSome then pushDelim st (mkDelim st.start s.length s) else st).codes.reverse, ?_, hD.nil⟩
-  unfold findCoreTokens
-  rw [h1]
-  simp only
-  rw [hms, ← hds, hpe]
-
-theorem findCoreTokens_ok (s : Str) (fn : Footnotes.Table) : ∃ r, findCoreTokens s fn = .ok r := by
-  obtain ⟨ms, codes, h, _⟩ := findCoreTokens_dinv s fn
-  exact ⟨_, h⟩
-
-theorem tokenizeInner_ok (types : List Inline.STok) (fn : Footnotes.Table) (s : Str) :
-    ∃ ks, Inline.tokenizeInner types fn s = .ok ks := by
-  obtain ⟨r, hr⟩ := findCoreTokens_ok s fn
-  unfold Inline.tokenizeInner Inline.findAll
-  rw [hr]
-  cases h : types.contains Inline.STok.coreTokens <;> simp
-
-theorem emphasis_wellformed (s : Str) (fn : Footnotes.Table) (ms : List CoreM) (codes : List CodeM)
-    (h : findCoreTokens s fn = .ok (ms, codes)) : ∀ m ∈ ms, isEmphM m → EmphWF s m := by
-  obtain ⟨ms', codes', h', hD⟩ := findCoreTokens_dinv s fn
-  rw [h] at h'
-  cases h'
-  intro m hm he
-  exact (hD.wf m (List.mem_reverse.1 hm) he).1
-
-theorem emphasis_nested (s : Str) (fn : Footnotes.Table) (ms : List CoreM) (codes : List CodeM)
-    (h : findCoreTokens s fn = .ok (ms, codes)) : ms.Pairwise (fun older newer => NestRel newer older) := by
-  obtain ⟨ms', codes', h', hD⟩ := findCoreTokens_dinv s fn
-  rw [h] at h'
-  cases h'
-  exact List.pairwise_reverse.2 hD.nest
-
-/-! ### delimiter characters, for texts without a backslash
-
-  The clause "the delimiter characters of an emphasis match are all `*` or all `_`" is false in
-  general (see Props/C06.lean).  Both counterexamples need a backslash; without one it holds. -/
-
-theorem countLeading_get (ch : Char) : ∀ (l : Str) (k : Nat), k < countLeading ch l → l[k]? = some ch
-  | [], k, h => by simp [countLeading] at h
-  | c :: rest, k, h => by
-    simp only [countLeading] at h
-    split at h
-    · rename_i hc
-      cases k with
-      | zero => simp [hc]
-      | succ k => simp only [List.getElem?_cons_succ]; exact countLeading_get ch rest k (by omega)
-    · omega
-
-theorem closeRun_last (n : Nat) (hn : 1 ≤ n) : ∀ (fuel j : Nat) (pt : Bool) (l : Str) (j' : Nat),
-    closeRun n fuel j pt l = some j' → j ≤ j' ∧ l[j' - j + n - 1]? = some '`'
-  | 0, _, _, _, _, h => by simp [closeRun] at h
-  | fuel + 1, _, _, [], _, h => by simp [closeRun] at h
-  | fuel + 1, j, pt, c :: rest, j', h => by
-    simp only [closeRun] at h
-    split at h
-    · split at h
-      · rename_i hr
-        cases h
-        refine ⟨Nat.le_refl _, ?_⟩
-        have : j - j + n - 1 = n - 1 := by omega
-        rw [this]
-        exact countLeading_get '`' (c :: rest) (n - 1) (by omega)
-      · obtain ⟨h1, h2⟩ := closeRun_last n hn fuel _ _ _ _ h
-        refine ⟨by omega, ?_⟩
-        rw [List.getElem?_drop] at h2
-        rw [← h2]; congr 1; omega
-    · obtain ⟨h1, h2⟩ := closeRun_last n hn fuel _ _ _ _ h
-      refine ⟨by omega, ?_⟩
-      have : j' - j + n - 1 = (j' - (j + 1) + n - 1) + 1 := by omega
-      rw [this, List.getElem?_cons_succ]
-      exact h2
-
-theorem codeAt_last (prev : Option Char) (r : Str) (len n gs ge : Nat) (h : codeAt prev r = some (len, n, gs, ge)) :
-    r[len - 1]? = some '`' := by
-  unfold codeAt at h
-  split at h
-  · cases h
-  · simp only at h
-    split at h
-    · cases h
-    · split at h
-      · cases h
-      · rename_i hn
-        split at h
-        · rename_i j hj
-          cases h
-          obtain ⟨_, h2⟩ := closeRun_last _ (by omega) _ _ _ _ _ hj
-          rw [List.getElem?_drop, List.getElem?_drop] at h2
-          rw [← h2]; congr 1; omega
-        · cases h
-
-theorem codeSearchAux_last : ∀ (fuel pos : Nat) (prev : Option Char) (l : Str) (cm : CodeM),
-    codeSearchAux fuel pos prev l = some cm → pos < cm.stop ∧ l[cm.stop - 1 - pos]? = some '`'
-  | 0, _, _, _, _, h => by simp [codeSearchAux] at h
-  | fuel + 1, _, _, [], _, h => by simp [codeSearchAux] at h
-  | fuel + 1, pos, prev, c :: rest, cm, h => by
-    simp only [codeSearchAux] at h
-    split at h
-    · rename_i len n gs ge hc
-      cases h
-      have h1 := codeAt_len _ _ _ _ _ _ hc
-      have h2 := codeAt_last _ _ _ _ _ _ hc
-      refine ⟨by simp only; omega, ?_⟩
-      simp only
-      rw [← h2]; congr 1; omega
-    · obtain ⟨h1, h2⟩ := codeSearchAux_last fuel _ _ _ _ h
-      refine ⟨by omega, ?_⟩
-      have : cm.stop - 1 - pos = (cm.stop - 1 - (pos + 1)) + 1 := by omega
-      rw [this, List.getElem?_cons_succ]
-      exact h2
-
-theorem codeSearch_last (s : Str) (pos : Nat) (cm : CodeM) (h : codeSearch s pos = some cm) :
-    1 ≤ cm.stop ∧ s[cm.stop - 1]? = some '`' := by
-  unfold codeSearch at h
-  obtain ⟨h1, h2⟩ := codeSearchAux_last _ _ _ _ _ h
-  refine ⟨by omega, ?_⟩
-  rw [List.getElem?_drop] at h2
-  rw [← h2]; congr 1; omega
+/-! ### delimiter characters and non-empty content -/
 
 theorem labelGo_last (s : Str) (fn : Footnotes.Table) : ∀ (l : Str) (i : Nat) (st : Option Nat) (esc : Bool)
     (r : (Nat × Str) × (Str × Str)), labelGo s fn l i st esc = some r → l[r.1.1 - 1 - i]? = some ']'
@@ -1816,16 +1644,6 @@ theorem CInv.sub {s : Str} {hi : Nat} {ds ds' : List Delim} {ms : List CoreM} (h
     (hD : DInv s 0 hi ds' ms) (hsub : ∀ d ∈ ds', d ∈ ds) : CInv s hi ds' ms :=
   ⟨hD, fun d hd => h.eok d (hsub d hd), h.ch⟩
 
-theorem processEmphasis_cinv (s : Str) (sb : Option Nat) (hi : Nat) (hhi : hi ≤ s.length)
-    (ds : List Delim) (ms : List CoreM) (h : CInv s hi ds ms) :
-    ∃ ds' ms', processEmphasis s sb ds ms = .ok (ds', ms') ∧ CInv s hi ds' ms' := by
-  obtain ⟨ds', ms', h1, h2⟩ := processEmphasis_inv s sb 0 hi hhi (CInv s hi)
-    (fun _ _ h => h.dinv.chain) (fun _ _ _ _ _ _ h hr => h.step hhi hr) ds ms h
-  refine ⟨_, _, h2, ?_⟩
-  cases sb with
-  | none => exact h1.sub h1.dinv.nil (fun d hd => by cases hd)
-  | some b => exact h1.sub (h1.dinv.take b) (fun d hd => List.mem_of_mem_take hd)
-
 theorem EOK_deactivate (s : Str) (d : Delim) (h : EOK s d) : EOK s (deactivate d) := by
   obtain ⟨h1, h2, h3, h4, h5, _⟩ := deactivate_fields d
   intro he
@@ -1833,10 +1651,151 @@ theorem EOK_deactivate (s : Str) (d : Delim) (h : EOK s d) : EOK s (deactivate d
   rw [h1, h2, h3, h4]
   exact h he
 
-theorem findLinkImage_cinv (s : Str) (offset : Nat) (ds : List Delim) (ms : List CoreM) (fn : Footnotes.Table)
-    (hi : Nat) (hD : CInv s hi ds ms) (hhi : hi ≤ s.length) (ho : s[offset]? = some ']') :
+theorem mkDelim_not_emph (s : Str) (a b : Nat) (hab : a < b) (c0 : Char) (h : s[a]? = some c0)
+    (h1 : c0 ≠ '*') (h2 : c0 ≠ '_') : EOK s (mkDelim a b s) := by
+  intro he
+  simp only [mkDelim, slice_head s a b hab, h, Bool.or_eq_true, beq_iff_eq, Option.some.injEq] at he
+  rcases he with he | he
+  · exact absurd he h1
+  · exact absurd he h2
+
+
+/-- two delimiters, the first before the second: not adjacent, or not both emphasis runs of the
+    same character -/
+def Sep (x y : Delim) : Prop :=
+  x.stop < y.start ∨ ¬(x.emph = true ∧ y.emph = true ∧ x.type.head? = y.type.head?)
+
+/-- no delimiter that ends exactly at `a` is an emphasis run of the character `c` -/
+def TightAt (a : Nat) (c : Char) (ds : List Delim) : Prop :=
+  ∀ x ∈ ds, x.stop < a ∨ ¬(x.emph = true ∧ x.type.head? = some c)
+
+/-- the full invariant: geometry and nesting (`DInv`), delimiter characters (`CInv`), adjacent
+    delimiters are not runs of the same character, emphasis matches have non-empty content -/
+structure GInv (s : Str) (hi : Nat) (ds : List Delim) (ms : List CoreM) : Prop where
+  cinv : CInv s hi ds ms
+  sep : ds.Pairwise Sep
+  nonempty : ∀ m ∈ ms, isEmphM m → m.ts < m.te
+
+theorem GInv.sub {s : Str} {hi : Nat} {ds ds' : List Delim} {ms : List CoreM} (h : GInv s hi ds ms)
+    (hD : DInv s 0 hi ds' ms) (hsub : ds'.Sublist ds) : GInv s hi ds' ms :=
+  ⟨h.cinv.sub hD (fun d hd => hsub.subset hd), h.sep.sublist hsub, h.nonempty⟩
+
+theorem head_shrunk (d d' : Delim) (ch : Char) (n : Nat) (h1 : d.type = List.replicate d.number ch)
+    (ht : d'.type = d.type.drop n) (hn : d'.number + n = d.number) (hpos : 1 ≤ d'.number) :
+    d'.type.head? = d.type.head? := by
+  rw [ht, h1, List.drop_replicate, List.head?_replicate, List.head?_replicate]
+  rw [if_neg (by omega), if_neg (by omega)]
+
+theorem GInv.step {s : Str} {hi : Nat} (hhi : hi ≤ s.length) {ds ms curr ds' ms' from'}
+    (h : GInv s hi ds ms) (hr : StepRel s ds ms curr ds' ms' from') : GInv s hi ds' ms' := by
+  refine ⟨h.cinv.step hhi hr, ?_, ?_⟩
+  · cases hr with
+    | erased _ _ _ c hc => exact h.sep.sublist (List.eraseIdx_sublist _ _)
+    | skipped _ _ _ c hc => exact h.sep
+    | matched A B C o c _ dch hoe hoo hce hcc hcb hs =>
+      obtain ⟨m1, hA, h1⟩ := Chain.split h.cinv.dinv.chain
+      obtain ⟨hm1, hoOK, h2⟩ := h1
+      obtain ⟨m2, hB, h3⟩ := Chain.split h2
+      obtain ⟨hm2, hcOK, hCC⟩ := h3
+      have hm2' := Chain.le hB
+      obtain ⟨hn1, hn2, hn3, hn4⟩ := emphN_bounds o c hoOK hcOK
+      have ho1 := hoOK.span; have hc1 := hcOK.span
+      have ho2 := hoOK.pos; have hc2 := hcOK.pos
+      obtain ⟨cho, hto, _⟩ := h.cinv.eok o (by simp) hoe
+      obtain ⟨chc, htc, _⟩ := h.cinv.eok c (by simp) hce
+      have hsep := h.sep
+      rw [List.pairwise_append] at hsep
+      obtain ⟨pA, pR, xA⟩ := hsep
+      rw [List.pairwise_cons] at pR
+      obtain ⟨xo, pBC⟩ := pR
+      rw [List.pairwise_append] at pBC
+      obtain ⟨pB, pcC, xB⟩ := pBC
+      rw [List.pairwise_cons] at pcC
+      obtain ⟨xc, pC⟩ := pcC
+      have hAC : ∀ x ∈ A, ∀ y ∈ C, Sep x y := fun x hx y hy => xA x hx y (by simp [hy])
+      have hAstop : ∀ x ∈ A, x.stop ≤ o.start := fun x hx => by have := hA.mem x hx; omega
+      have hCstart : ∀ y ∈ C, c.stop ≤ y.start := fun y hy => (hCC.mem y hy).2.1
+      -- the remainder of the opener
+      have hO : ∀ o' ∈ shrink o (emphN o c) false,
+          (∀ x ∈ A, Sep x o') ∧ (∀ y ∈ C, Sep o' y) ∧ o'.stop < c.start + emphN o c := by
+        intro o' ho'
+        rcases shrink_spec o (emphN o c) false hoOK hn1 hn3 with ⟨e1, _⟩ | ⟨o'', e1, hOK', hnum, hst, hsp, hem, _, _, _, hty⟩
+        · rw [e1] at ho'; cases ho'
+        · rw [e1] at ho'; simp only [List.mem_singleton] at ho'; subst ho'
+          simp only [Bool.false_eq_true, if_false] at hst hsp
+          have hhd := head_shrunk o o' cho _ hto hty hnum hOK'.pos
+          refine ⟨fun x hx => ?_, fun y hy => Or.inl (by have := hCstart y hy; omega), by omega⟩
+          rcases xA x hx o (by simp) with h' | h'
+          · exact Or.inl (by omega)
+          · exact Or.inr (by rw [hem, hhd]; exact h')
+      -- the remainder of the closer
+      have hCl : ∀ c' ∈ shrink c (emphN o c) true,
+          (∀ x ∈ A, Sep x c') ∧ (∀ y ∈ C, Sep c' y) ∧ c'.start = c.start + emphN o c := by
+        intro c' hc'
+        rcases shrink_spec c (emphN o c) true hcOK hn1 hn4 with ⟨e1, _⟩ | ⟨c'', e1, hOK', hnum, hst, hsp, hem, _, _, _, hty⟩
+        · rw [e1] at hc'; cases hc'
+        · rw [e1] at hc'; simp only [List.mem_singleton] at hc'; subst hc'
+          simp only [if_true] at hst hsp
+          have hhd := head_shrunk c c' chc _ htc hty hnum hOK'.pos
+          refine ⟨fun x hx => Or.inl (by have := hAstop x hx; omega), fun y hy => ?_, hst⟩
+          rcases xc y hy with h' | h'
+          · exact Or.inl (by omega)
+          · exact Or.inr (by rw [hem, hhd]; exact h')
+      have hlen : ∀ (d : Delim) (n : Nat) (l : Bool), (shrink d n l).Pairwise Sep := by
+        intro d n l
+        unfold shrink
+        cases delimRemove d n l <;> simp
+      rw [List.pairwise_append]
+      refine ⟨pA, ?_, fun x hx y hy => ?_⟩
+      · rw [List.pairwise_append]
+        refine ⟨hlen _ _ _, ?_, fun x hx y hy => ?_⟩
+        · rw [List.pairwise_append]
+          exact ⟨hlen _ _ _, pC, fun x hx y hy => (hCl x hx).2.1 y hy⟩
+        · rcases List.mem_append.1 hy with hy | hy
+          · exact Or.inl (by have := (hO x hx).2.2; have := (hCl y hy).2.2; omega)
+          · exact (hO x hx).2.1 y hy
+      · rcases List.mem_append.1 hy with hy | hy
+        · exact (hO y hy).1 x hx
+        rcases List.mem_append.1 hy with hy | hy
+        · exact (hCl y hy).1 x hx
+        · exact hAC x hx y hy
+  · cases hr with
+    | erased _ _ _ c hc => exact h.nonempty
+    | skipped _ _ _ c hc => exact h.nonempty
+    | matched A B C o c _ dch hoe hoo hce hcc hcb hs =>
+      intro m hm he
+      rcases List.mem_cons.1 hm with rfl | hm
+      · obtain ⟨m1, hA, h1⟩ := Chain.split h.cinv.dinv.chain
+        obtain ⟨hm1, hoOK, h2⟩ := h1
+        obtain ⟨m2, hB, h3⟩ := Chain.split h2
+        obtain ⟨hm2, hcOK, hCC⟩ := h3
+        obtain ⟨hn1, hn2, hn3, hn4⟩ := emphN_bounds o c hoOK hcOK
+        have ho1 := hoOK.span
+        have hsep := h.sep
+        rw [List.pairwise_append] at hsep
+        have xo := (List.pairwise_cons.1 hsep.2.1).1 c (by simp)
+        have hlt : o.stop < c.start := by
+          rcases xo with h' | h'
+          · exact h'
+          · exact absurd ⟨hoe, hce, (closedBy_true_head o c hcb).1⟩ h'
+        simp only [emphMatch]
+        omega
+      · exact h.nonempty m hm he
+
+theorem processEmphasis_ginv (s : Str) (sb : Option Nat) (hi : Nat) (hhi : hi ≤ s.length)
+    (ds : List Delim) (ms : List CoreM) (h : GInv s hi ds ms) :
+    ∃ ds' ms', processEmphasis s sb ds ms = .ok (ds', ms') ∧ GInv s hi ds' ms' := by
+  obtain ⟨ds', ms', h1, h2⟩ := processEmphasis_inv s sb 0 hi hhi (GInv s hi)
+    (fun _ _ h => h.cinv.dinv.chain) (fun _ _ _ _ _ _ h hr => h.step hhi hr) ds ms h
+  refine ⟨_, _, h2, ?_⟩
+  cases sb with
+  | none => exact h1.sub h1.cinv.dinv.nil (List.nil_sublist _)
+  | some b => exact h1.sub (h1.cinv.dinv.take b) (List.take_sublist _ _)
+
+theorem findLinkImage_ginv (s : Str) (offset : Nat) (ds : List Delim) (ms : List CoreM) (fn : Footnotes.Table)
+    (hi : Nat) (hD : GInv s hi ds ms) (hhi : hi ≤ s.length) (ho : s[offset]? = some ']') :
     ∃ i' ds' ms', findLinkImage s offset ds ms fn = .ok (i', ds', ms') ∧ offset ≤ i' ∧ i' < s.length ∧
-      CInv s hi ds' ms' ∧ Harmless s (i' + 1) := by
+      GInv s hi ds' ms' ∧ Harmless s (i' + 1) := by
   have ho' : offset < s.length := (List.getElem?_eq_some_iff.1 ho).1
   have hJ0 : Harmless s (offset + 1) := ⟨by omega, ']', by simpa using ho, by decide, by decide⟩
   unfold findLinkImage
@@ -1850,15 +1809,15 @@ theorem findLinkImage_cinv (s : Str) (offset : Nat) (ds : List Delim) (ms : List
       · omega
     rw [List.getElem?_eq_getElem hi']
     simp only
-    have herase : CInv s hi (ds.eraseIdx i) ms :=
-      hD.sub (hD.dinv.eraseIdx i) (fun d hd => List.mem_of_mem_eraseIdx hd)
+    have herase : GInv s hi (ds.eraseIdx i) ms :=
+      hD.sub (hD.cinv.dinv.eraseIdx i) (List.eraseIdx_sublist _ _)
     split
     · exact ⟨_, _, _, rfl, Nat.le_refl _, ho', herase, hJ0⟩
     · cases hm : matchLinkImage s offset ds[i] fn with
       | none => exact ⟨_, _, _, rfl, Nat.le_refl _, ho', herase, hJ0⟩
       | some m =>
         simp only
-        obtain ⟨ds1, ms1, hpe, hD1⟩ := processEmphasis_cinv s (some i) hi hhi ds ms hD
+        obtain ⟨ds1, ms1, hpe, hD1⟩ := processEmphasis_ginv s (some i) hi hhi ds ms hD
         rw [hpe]
         simp only
         obtain ⟨h1, h2, hk⟩ := matchLinkImage_stop s offset _ fn m ho' hm
@@ -1871,46 +1830,98 @@ theorem findLinkImage_cinv (s : Str) (offset : Nat) (ds : List Delim) (ms : List
           rcases h4 with h4 | h4
           · exact ⟨')', by simpa using h4, by decide, by decide⟩
           · exact ⟨']', by simpa using h4, by decide, by decide⟩
-        have hcons : ∀ ds2, CInv s hi ds2 ms1 → CInv s hi ds2 (m :: ms1) := fun ds2 h =>
-          ⟨h.dinv.cons_other m hne, h.eok, fun m' hm' he => by
+        have hcons : ∀ ds2, GInv s hi ds2 ms1 → GInv s hi ds2 (m :: ms1) := fun ds2 h =>
+          ⟨⟨h.cinv.dinv.cons_other m hne, h.cinv.eok, fun m' hm' he => by
             rcases List.mem_cons.1 hm' with rfl | hm'
             · exact absurd he hne
-            · exact h.ch m' hm' he⟩
+            · exact h.cinv.ch m' hm' he⟩, h.sep, fun m' hm' he => by
+            rcases List.mem_cons.1 hm' with rfl | hm'
+            · exact absurd he hne
+            · exact h.nonempty m' hm' he⟩
         refine ⟨_, _, _, rfl, by omega, by omega, ?_, hJ⟩
         split
-        · refine hcons _ ⟨hD1.dinv.deactivate, fun d' hd' => ?_, hD1.ch⟩
-          obtain ⟨d, hd, rfl⟩ := List.mem_map.1 hd'
-          exact EOK_deactivate s d (hD1.eok d hd)
+        · refine hcons _ ⟨⟨hD1.cinv.dinv.deactivate, fun d' hd' => ?_, hD1.cinv.ch⟩, ?_, hD1.nonempty⟩
+          · obtain ⟨d, hd, rfl⟩ := List.mem_map.1 hd'
+            exact EOK_deactivate s d (hD1.cinv.eok d hd)
+          · rw [List.pairwise_map]
+            refine hD1.sep.imp (fun {x y} hxy => ?_)
+            obtain ⟨x1, _, x3, x4, x5, _⟩ := deactivate_fields x
+            obtain ⟨y1, _, y3, y4, y5, _⟩ := deactivate_fields y
+            show Sep (deactivate x) (deactivate y)
+            unfold Sep
+            rw [x1, x4, x5, y1, y3, y5]
+            exact hxy
         · exact hcons _ hD1
 
-theorem mkDelim_not_emph (s : Str) (a b : Nat) (hab : a < b) (c0 : Char) (h : s[a]? = some c0)
-    (h1 : c0 ≠ '*') (h2 : c0 ≠ '_') : EOK s (mkDelim a b s) := by
-  intro he
-  simp only [mkDelim, slice_head s a b hab, h, Bool.or_eq_true, beq_iff_eq, Option.some.injEq] at he
-  rcases he with he | he
-  · exact absurd he h1
-  · exact absurd he h2
+theorem mkDelim_head (s : Str) (a b : Nat) (hab : a < b) : (mkDelim a b s).type.head? = s[a]? := by
+  simp only [mkDelim]; exact slice_head s a b hab
 
-theorem CInv.push_ok {s : Str} {hi hi' : Nat} {ds : List Delim} {ms : List CoreM} (h : CInv s hi ds ms)
-    (a b : Nat) (h1 : hi ≤ a) (hab : a < b) (h2 : b ≤ hi') (hb : b ≤ s.length) (he : EOK s (mkDelim a b s)) :
-    CInv s hi' (ds ++ [mkDelim a b s]) ms :=
-  ⟨h.dinv.push a b h1 hab h2 hb, fun d hd => by
-    rcases List.mem_append.1 hd with hd | hd
-    · exact h.eok d hd
-    · simp only [List.mem_singleton] at hd; subst hd; exact he, h.ch⟩
+theorem GInv.push_ok {s : Str} {hi hi' : Nat} {ds : List Delim} {ms : List CoreM} (h : GInv s hi ds ms)
+    (a b : Nat) (h1 : hi ≤ a) (hab : a < b) (h2 : b ≤ hi') (hb : b ≤ s.length) (he : EOK s (mkDelim a b s))
+    (hsep : ∀ x ∈ ds, Sep x (mkDelim a b s)) :
+    GInv s hi' (ds ++ [mkDelim a b s]) ms :=
+  ⟨⟨h.cinv.dinv.push a b h1 hab h2 hb, fun d hd => by
+      rcases List.mem_append.1 hd with hd | hd
+      · exact h.cinv.eok d hd
+      · simp only [List.mem_singleton] at hd; subst hd; exact he, h.cinv.ch⟩,
+    List.pairwise_append.2 ⟨h.sep, List.pairwise_singleton _ _, fun x hx y hy => by
+      simp only [List.mem_singleton] at hy; subst hy; exact hsep x hx⟩,
+    h.nonempty⟩
 
-theorem loopInv_cinv (s : Str) (fn : Footnotes.Table) (hbs : '\\' ∉ s) :
-    LoopInv s fn (CInv s) (RunOf s) (Harmless s) False where
-  mono := fun hh h => ⟨h.dinv.mono hh, h.eok, h.ch⟩
-  push_run := fun a b ch h hR h1 hab h2 hb => h.push_ok a b h1 hab h2 hb (fun _ =>
-    ⟨ch, by simp only [mkDelim]; exact slice_eq_replicate s a b ch hb hR.2, hR⟩)
-  push_esc := fun _ _ _ hE => hE.elim
-  push_br := fun i h hc h1 h2 hb => h.push_ok i (i + 1) h1 (by omega) h2 hb
-    (mkDelim_not_emph s i (i + 1) (by omega) '[' hc (by decide) (by decide))
-  push_img := fun i h hJ _ h1 h2 hb => by
+theorem not_emph_of_head (s : Str) (a b : Nat) (hab : a < b) (c0 : Char) (h : s[a]? = some c0)
+    (h1 : c0 ≠ '*') (h2 : c0 ≠ '_') : (mkDelim a b s).emph = false := by
+  cases he : (mkDelim a b s).emph with
+  | false => rfl
+  | true =>
+    simp only [mkDelim, slice_head s a b hab, h, Bool.or_eq_true, beq_iff_eq, Option.some.injEq] at he
+    rcases he with he | he
+    · exact absurd he h1
+    · exact absurd he h2
+
+theorem tightAt_push (s : Str) (hi : Nat) (ds : List Delim) (ms : List CoreM) (h : GInv s hi ds ms) (a b : Nat) (c : Char)
+    (h1 : hi ≤ a) (hab : a < b)
+    (hd : ¬((mkDelim a b s).emph = true ∧ (mkDelim a b s).type.head? = some c)) :
+    TightAt b c (ds ++ [mkDelim a b s]) := by
+  intro x hx
+  rcases List.mem_append.1 hx with hx | hx
+  · have := (h.cinv.dinv.chain.mem x hx).2.2
+    exact Or.inl (by omega)
+  · simp only [List.mem_singleton] at hx; subst hx
+    exact Or.inr hd
+
+theorem loopInv_ginv (s : Str) (fn : Footnotes.Table) :
+    LoopInv s fn (GInv s) (RunOf s) (Harmless s) TightAt where
+  mono := fun hh h => ⟨⟨h.cinv.dinv.mono hh, h.cinv.eok, h.cinv.ch⟩, h.sep, h.nonempty⟩
+  push_run := fun {hi hi' ds ms} a b ch h hR hT h1 hab h2 hb => by
+    have hhead : (mkDelim a b s).type.head? = some ch := by
+      rw [mkDelim_head s a b hab]; exact hR.2 a (Nat.le_refl _) hab
+    refine h.push_ok a b h1 hab h2 hb (fun _ =>
+      ⟨ch, by simp only [mkDelim]; exact slice_eq_replicate s a b ch hb hR.2, hR⟩) (fun x hx => ?_)
+    rcases hT x hx with h' | h'
+    · exact Or.inl h'
+    · exact Or.inr (fun hh => h' ⟨hh.1, by rw [hh.2.2, hhead]⟩)
+  push_br := fun {hi hi' ds ms} i h hc h1 h2 hb => by
+    have hne := not_emph_of_head s i (i + 1) (by omega) '[' hc (by decide) (by decide)
+    exact h.push_ok i (i + 1) h1 (by omega) h2 hb (fun he => by rw [hne] at he; cases he)
+      (fun x hx => Or.inr (fun hh => by rw [hne] at hh; cases hh.2.1))
+  push_img := fun {hi hi' ds ms} i h hJ _ h1 h2 hb => by
     obtain ⟨hi1, c0, hc0, hc1, hc2⟩ := hJ
-    exact h.push_ok (i - 1) (i + 1) h1 (by omega) h2 hb (mkDelim_not_emph s (i - 1) (i + 1) (by omega) c0 hc0 hc1 hc2)
-  link := fun {hi ds ms} offset h hhi ho => findLinkImage_cinv s offset ds ms fn hi h hhi ho
+    have hne := not_emph_of_head s (i - 1) (i + 1) (by omega) c0 hc0 hc1 hc2
+    exact h.push_ok (i - 1) (i + 1) h1 (by omega) h2 hb (fun he => by rw [hne] at he; cases he)
+      (fun x hx => Or.inr (fun hh => by rw [hne] at hh; cases hh.2.1))
+  link := fun {hi ds ms} offset h hhi ho => findLinkImage_ginv s offset ds ms fn hi h hhi ho
+  T_lt := fun {hi ds ms} i c h hlt x hx => Or.inl (by have := (h.cinv.dinv.chain.mem x hx).2.2; omega)
+  T_run := fun {hi ds ms} a b ch c h hR h1 hab hb hne => by
+    refine tightAt_push s hi ds ms h a b c h1 hab (fun hh => ?_)
+    rw [mkDelim_head s a b hab, hR.2 a (Nat.le_refl _) hab] at hh
+    exact hne (Option.some.inj hh.2).symm
+  T_br := fun {hi ds ms} i c h hc h1 => by
+    have hne := not_emph_of_head s i (i + 1) (by omega) '[' hc (by decide) (by decide)
+    exact tightAt_push s hi ds ms h i (i + 1) c h1 (by omega) (fun hh => by rw [hne] at hh; cases hh.1)
+  T_img := fun {hi ds ms} i c h hJ h1 => by
+    obtain ⟨hi1, c0, hc0, hc1, hc2⟩ := hJ
+    have hne := not_emph_of_head s (i - 1) (i + 1) (by omega) c0 hc0 hc1 hc2
+    exact tightAt_push s hi ds ms h (i - 1) (i + 1) c h1 (by omega) (fun hh => by rw [hne] at hh; cases hh.1)
   R_new := fun i c hc hcc => ⟨hcc, fun k hk1 hk2 => by
     have : k = i := by omega
     subst this; exact hc⟩
@@ -1921,35 +1932,62 @@ theorem loopInv_cinv (s : Str) (fn : Footnotes.Table) (hbs : '\\' ∉ s) :
       subst this; exact hc⟩
   J_bang := fun i hc => ⟨by omega, '!', by simpa using hc, by decide, by decide⟩
   J_bs := fun i hc => ⟨by omega, '\\', by simpa using hc, by decide, by decide⟩
-  J_esc := fun hE _ => hE.elim
-  J_code := fun p cm h => by
-    obtain ⟨h1, h2⟩ := codeSearch_last s p cm h
-    exact ⟨h1, '`', h2, by decide, by decide⟩
-  E_bs := fun i hc => hbs (List.mem_of_getElem? hc)
 
-theorem findCoreTokens_cinv (s : Str) (fn : Footnotes.Table) (hbs : '\\' ∉ s) :
-    ∃ ms codes, findCoreTokens s fn = .ok (ms.reverse, codes) ∧ CInv s s.length [] ms := by
-  have h0 : CInv s 0 [] [] :=
-    ⟨⟨Nat.le_refl _, fun m hm => (by cases hm), List.Pairwise.nil⟩, fun d hd => (by cases hd), fun m hm => (by cases hm)⟩
-  obtain ⟨st, ds, h1, hds, h2⟩ := findCoreTokens_loop (loopInv_cinv s fn hbs) h0
-  have hms : (if st.inRun.isSome then pushDelim st (mkDelim st.start s.length s) else st).ms = st.ms := by
+/-! ### results -/
+
+/-- `find_core_tokens` returns; its matches (here newest first) satisfy the invariant -/
+theorem findCoreTokens_ginv (s : Str) (fn : Footnotes.Table) :
+    ∃ ms codes, findCoreTokens s fn = .ok (ms.reverse, codes) ∧ GInv s s.length [] ms := by
+  have h0 : GInv s 0 [] [] :=
+    ⟨⟨⟨Nat.le_refl _, fun m hm => (by cases hm), List.Pairwise.nil⟩, fun d hd => (by cases hd),
+      fun m hm => (by cases hm)⟩, List.Pairwise.nil, fun m hm => (by cases hm)⟩
+  obtain ⟨st, ds, h1, hds, h2⟩ := findCoreTokens_loop (loopInv_ginv s fn) h0 (fun c x hx => by cases hx)
+  obtain ⟨ds', ms', hpe, hD⟩ := processEmphasis_ginv s none s.length (Nat.le_refl _) ds st.ms h2
+  have hms : (if st.inRun.isSome then
+      pushDelim st (mkDelim st.start (if !st.escaped then s.length else s.length - 1) s) else st).ms = st.ms := by
     split <;> rfl
-  obtain ⟨ds', ms', hpe, hD⟩ := processEmphasis_cinv s none s.length (Nat.le_refl _) ds st.ms h2
-  refine ⟨ms', (if st.inRun.isSome then pushDelim st (mkDelim st.start s.length s) else st).codes.reverse, ?_,
-    hD.sub hD.dinv.nil (fun d hd => by cases hd)⟩
+  refine ⟨ms', (if st.inRun.isSome then
+      pushDelim st (mkDelim st.start (if !st.escaped then s.length else s.length - 1) s) else st).codes.reverse, ?_,
+    hD.sub hD.cinv.dinv.nil (List.nil_sublist _)⟩
   unfold findCoreTokens
   rw [h1]
   simp only
   rw [hms, ← hds, hpe]
 
-/-- In a text without a backslash, the delimiter characters of every emphasis match are all equal
-    to its `delimiter`, which is `*` or `_`. -/
-theorem emphasis_chars (s : Str) (fn : Footnotes.Table) (hbs : '\\' ∉ s) (ms : List CoreM) (codes : List CodeM)
-    (h : findCoreTokens s fn = .ok (ms, codes)) : ∀ m ∈ ms, isEmphM m → EmphCh s m := by
-  obtain ⟨ms', codes', h', hD⟩ := findCoreTokens_cinv s fn hbs
+theorem findCoreTokens_ok (s : Str) (fn : Footnotes.Table) : ∃ r, findCoreTokens s fn = .ok r := by
+  obtain ⟨ms, codes, h, _⟩ := findCoreTokens_ginv s fn
+  exact ⟨_, h⟩
+
+theorem tokenizeInner_ok (types : List Inline.STok) (fn : Footnotes.Table) (s : Str) :
+    ∃ ks, Inline.tokenizeInner types fn s = .ok ks := by
+  obtain ⟨r, hr⟩ := findCoreTokens_ok s fn
+  unfold Inline.tokenizeInner Inline.findAll
+  rw [hr]
+  cases h : types.contains Inline.STok.coreTokens <;> simp
+
+theorem emphasis_wellformed (s : Str) (fn : Footnotes.Table) (ms : List CoreM) (codes : List CodeM)
+    (h : findCoreTokens s fn = .ok (ms, codes)) : ∀ m ∈ ms, isEmphM m → EmphWF s m ∧ m.ts < m.te := by
+  obtain ⟨ms', codes', h', hD⟩ := findCoreTokens_ginv s fn
   rw [h] at h'
   cases h'
   intro m hm he
-  exact hD.ch m (List.mem_reverse.1 hm) he
+  exact ⟨(hD.cinv.dinv.wf m (List.mem_reverse.1 hm) he).1, hD.nonempty m (List.mem_reverse.1 hm) he⟩
+
+theorem emphasis_nested (s : Str) (fn : Footnotes.Table) (ms : List CoreM) (codes : List CodeM)
+    (h : findCoreTokens s fn = .ok (ms, codes)) : ms.Pairwise (fun older newer => NestRel newer older) := by
+  obtain ⟨ms', codes', h', hD⟩ := findCoreTokens_ginv s fn
+  rw [h] at h'
+  cases h'
+  exact List.pairwise_reverse.2 hD.cinv.dinv.nest
+
+/-- The delimiter characters of every emphasis match are all equal to its `delimiter`, which is
+    `*` or `_`. -/
+theorem emphasis_chars (s : Str) (fn : Footnotes.Table) (ms : List CoreM) (codes : List CodeM)
+    (h : findCoreTokens s fn = .ok (ms, codes)) : ∀ m ∈ ms, isEmphM m → EmphCh s m := by
+  obtain ⟨ms', codes', h', hD⟩ := findCoreTokens_ginv s fn
+  rw [h] at h'
+  cases h'
+  intro m hm he
+  exact hD.cinv.ch m (List.mem_reverse.1 hm) he
 
 end Mistletoe.Core
